@@ -45,6 +45,7 @@ func (v verdict) key() string { return v.Class + ":" + v.Cat }
 
 func (h *harness) syncRun(c *engine.Case) (*engine.Observed, error) {
 	s := c.AllSync()
+	s.Syntax = 0 // the reference run also uses the plain presentation of the selection sets
 	b, _ := json.Marshal(struct {
 		S *engine.TShape
 		W *engine.WVal
@@ -284,6 +285,7 @@ type fixedReq struct {
 	listLen  int
 	listAlt  bool
 	maxInv   int // skip worlds with more invocations than this (keeps the schedule space bounded)
+	syntax   uint64 // presentation of the selection sets in the document (engine/syntax.go); 0 = plain
 }
 
 func (h *harness) exhaustive() {
@@ -315,6 +317,19 @@ func (h *harness) exhaustive() {
 		fixedReq{shape: "{o:{p:{q!:i r:i}} s:i}", leaf: ve, obj: ve, maxInv: 5},               // promise chains three deep
 		fixedReq{shape: "{a:{x:i y:i} b:{z:i}}", mutation: true, leaf: ve, obj: v, maxInv: 5}, // serial root with nested promises
 	)
+	reqs = append(reqs,
+		// interface- and union-typed positions (plain, in lists, at the root of a mutation)
+		fixedReq{shape: "{o:{n!:i}~i}", leaf: vle, obj: vle, maxInv: 4},
+		fixedReq{shape: "{o:{a!:i b:i}~u c:i}", leaf: vle, obj: vle, maxInv: 4},
+		fixedReq{shape: "{l:[{x!:i}~i] c:i}", leaf: ve, obj: v, listLen: 2, maxInv: 4},
+		fixedReq{shape: "{l:[{x:i y!:i}~u!]}", leaf: ve, obj: v, listLen: 1, maxInv: 4},
+		fixedReq{shape: "{a:{x:i}~u b:{y!:i}~i}", mutation: true, leaf: ve, obj: vle, maxInv: 4},
+		// un-collected presentations: repeated keys, split sub-selections, fragments, skipped selections
+		fixedReq{shape: "{o:{a!:i b:i} c:i}", leaf: vle, obj: vle, maxInv: 4, syntax: 9},
+		fixedReq{shape: "{o:{p:{q!:i} r:i}}", leaf: vle, obj: v, maxInv: 4, syntax: 10},
+		fixedReq{shape: "{l:[{x!:i y:i}~i] c:i}", leaf: ve, obj: v, listLen: 1, maxInv: 5, syntax: 13},
+		fixedReq{shape: "{a:{x:i y:i} b:{z:i}}", mutation: true, leaf: ve, obj: v, maxInv: 5, syntax: 14},
+	)
 	modes := []string{"sync", "promise"}
 	if run.Thorough() {
 		modes = []string{"sync", "promise", "pre"}
@@ -342,7 +357,7 @@ func (h *harness) exhaustive() {
 			}
 		}
 		engine.EnumWorlds(shape, rq.leaf, rq.obj, max(rq.listLen, 1), rq.listAlt, func(w *engine.WVal) bool {
-			base := &engine.Case{Mutation: rq.mutation, Shape: shape.Clone(), World: w}
+			base := &engine.Case{Mutation: rq.mutation, Shape: shape.Clone(), World: w, Syntax: rq.syntax}
 			if len(base.Invocations()) > rq.maxInv {
 				return true
 			}
@@ -366,7 +381,7 @@ func (h *harness) exhaustive() {
 		})
 		flush()
 		total += n
-		run.CountN("exhaustive:"+rq.shape, n)
+		run.CountN(fmt.Sprintf("exhaustive:%s/syntax=%d", rq.shape, rq.syntax), n)
 	}
 	run.Note("bounded-exhaustive part: %d fixed request shapes × all worlds over the listed outcomes × all async subsets × all fulfilment schedules = %d runs (complete=%v)", len(reqs), total, allComplete)
 	run.SetExhaustive(allComplete)
@@ -392,6 +407,9 @@ func (h *harness) random() {
 				}
 			}
 			c.Schedule = engine.GenSchedule(r, r.Range(0, 10))
+			if k%2 == 1 {
+				c.Syntax = r.Uint64() | 1
+			}
 			pending = append(pending, c)
 			if i < 2 && k == 0 {
 				run.Sample(map[string]any{"document": c.Document(), "case": c})
@@ -416,14 +434,6 @@ func main() {
 		}
 		h.model = m
 		defer m.Close()
-	}
-	if settle, err := engine.DetectSettle(); err != nil {
-		fmt.Fprintln(os.Stderr, "cannot probe the serial executor:", err)
-		os.Exit(2)
-	} else if settle {
-		run.Note("serial executor under test: repaired (settleSerialPromises; F-11a fixed) — model asked for mutation-settle")
-	} else {
-		run.Note("serial executor under test: unrepaired (F-11a open) — model asked for mutation")
 	}
 	run.SetRule("executor level: (request shape, resolver outcomes, async subset, schedule) through graphql.Execute; distinct = distinct case; non-trivial = at least two promises and (at least two idle rounds or at least one error). Combinator level: (future term, fulfil/poll script) through the verif hook; non-trivial = a callback-carrying combinator over a not-ready child that later completes")
 
